@@ -215,8 +215,21 @@ def fill_all(msg, depth=2, seed=0):
     return msg
 
 
+_synth_cache = {}
+
+
 def _synthetic(oneof):
-    return len(oneof.fields) == 1 and oneof.name == '_' + oneof.fields[0].name
+    """proto3 `optional` synthetic oneof?  Decided by the proto3_optional bit, not by the name:
+    `oneof _nick { string nick = 1; }` is a real oneof."""
+    key = (oneof.containing_type.full_name, oneof.name, id(oneof.containing_type.file.pool))
+    if key not in _synth_cache:
+        from google.protobuf import descriptor_pb2
+        dp = descriptor_pb2.DescriptorProto()
+        oneof.containing_type.CopyToProto(dp)
+        idx = [o.name for o in dp.oneof_decl].index(oneof.name)
+        members = [f for f in dp.field if f.HasField('oneof_index') and f.oneof_index == idx]
+        _synth_cache[key] = len(members) == 1 and members[0].proto3_optional
+    return _synth_cache[key]
 
 
 def valuations(cls, depth=2, seed=0, max_variants=3, pairs_of_oneofs=True):
